@@ -378,7 +378,7 @@ theorem reserve_ok {amb : List Nat} {s : State} (gs : GoodS amb s) {h : Nat} (hl
     rw [hb]
     simp only
     split
-    · have := reserveNew_ok gs hlt t mt (roundUp len (esize (some t)))
+    · have := reserveNew_ok gs hlt t mt (reserveLen x (roundUp len (esize (some t))) (some t))
       rw [hh] at this
       exact this
     · obtain ⟨tx, _, xt, _, _, _⟩ := (gs.inv.good b x hb).elems
